@@ -227,6 +227,13 @@ class Tr:
 
     def call(self, n):
         e = self.env
+        if isinstance(n.func, ast.Name) and n.func.id in ('all', 'any') and len(n.args) == 1 \
+                and isinstance(n.args[0], ast.GeneratorExp):
+            g = n.args[0]
+            if len(g.generators) != 1 or g.generators[0].ifs or g.generators[0].is_async:
+                fail(n, 'generator shape')
+            fn, it = self.lam(g.generators[0].target, g.generators[0].iter, lambda: self.boolean(g.elt))
+            return f'(loop_{"all" if n.func.id == "all" else "any"} {fn} {it})', 'bool'
         args = [self.expr(a) for a in n.args]
         if any(k.arg is not None for k in n.keywords):
             fail(n, 'keyword arguments')      # a bare **kwargs pass-through is ignored
@@ -238,6 +245,8 @@ class Tr:
                 return args[0]
             if name == 'hash' and len(args) == 1:
                 return args[0]                     # the hashed key itself is the observable
+            if name in ('all', 'any') and len(n.args) == 1 and isinstance(n.args[0], ast.GeneratorExp):
+                pass
             if name in ('min', 'max') and len(args) == 2:
                 t = self.join(ats[0], ats[1], n)
                 if t == 'Z':
@@ -310,6 +319,8 @@ class Tr:
             if isinstance(s.value, ast.Call) and ast.unparse(s.value) in ('super().__init__()',):
                 return self.block(rest)
             fail(s, 'expression statement')
+        if isinstance(s, ast.ImportFrom) and (s.module or '').startswith('geostructures'):
+            return self.block(rest)              # local import of the library's own names
         if isinstance(s, ast.Return):
             return self.ret_value(s.value)
         if isinstance(s, ast.Raise):
@@ -335,6 +346,8 @@ class Tr:
             b = self.block(s.orelse + ([] if (s.orelse and self.terminates(s.orelse)) else rest))
             self.vars = saved
             return f'(if {cond} then {a} else {b})'
+        if isinstance(s, ast.For):
+            return self.for_loop(s, rest)
         if isinstance(s, ast.Assign):
             if len(s.targets) != 1:
                 fail(s, 'multiple targets')
@@ -360,6 +373,42 @@ class Tr:
                 return f'(Ok ({self.env.ctors[key][0]} {" ".join(vals)}))'
             fail(s, 'assignment target')
         fail(s, 'statement')
+
+    def lam(self, target, iter_node, body_fn):
+        """(fun x => body) and the iterated list, for `for x in xs` / generator expressions"""
+        if not isinstance(target, ast.Name):
+            fail(target, 'loop target')
+        it, t = self.expr(iter_node)
+        if not (isinstance(t, tuple) and t[0] == 'list'):
+            fail(iter_node, f'iteration over {t}')
+        saved = dict(self.vars)
+        self.vars[target.id] = t[1]
+        body = body_fn()
+        self.vars = saved
+        return f'(fun {target.id} => {body})', it
+
+    def for_loop(self, s, rest):
+        """`for x in xs: if c: return True` (then rest)   ->  if loop_any (fun x => c) xs then true else rest
+           `for x in xs: if not c: return False` (then rest) -> if loop_all (fun x => c) xs then rest else false
+        a trailing unconditional `return <bool>` inside the loop body (the D6 shape) is NOT accepted"""
+        if s.orelse or len(s.body) != 1 or not isinstance(s.body[0], ast.If):
+            fail(s, 'for-loop shape')
+        iff = s.body[0]
+        if iff.orelse or len(iff.body) != 1 or not isinstance(iff.body[0], ast.Return) or \
+                not isinstance(iff.body[0].value, ast.Constant) or not isinstance(iff.body[0].value.value, bool):
+            fail(s, 'for-loop body')
+        if self.ret != 'bool':
+            fail(s, 'for-loop in a non-boolean function')
+        early = iff.body[0].value.value
+        if early:
+            fn, it = self.lam(s.target, s.iter, lambda: self.boolean(iff.test))
+            return f'(if loop_any {fn} {it} then true else {self.block(rest)})'
+        test = iff.test
+        if isinstance(test, ast.UnaryOp) and isinstance(test.op, ast.Not):
+            fn, it = self.lam(s.target, s.iter, lambda: self.boolean(test.operand))
+        else:
+            fn, it = self.lam(s.target, s.iter, lambda: 'negb ' + self.boolean(test))
+        return f'(if loop_all {fn} {it} then {self.block(rest)} else false)'
 
     def opt_operands(self, test):
         """the test is a conjunction of Optional-typed expressions used for their truthiness
@@ -437,6 +486,8 @@ def gtype(t):
         return f'option ({gtype(t[1])})'
     if t[0] == 'pair':
         return f'({gtype(t[1])} * {gtype(t[2])})'
+    if t[0] == 'list':
+        return f'list ({gtype(t[1])})'
     raise Abstain(f'type {t}')
 
 
